@@ -214,3 +214,65 @@ func init() {
 		Rules: []Rule{RuleDDaysBeforeBuild, RuleG1, RuleB1, RuleKPartitionWhole, RuleAOrder},
 	})
 }
+
+func init() {
+	claim(&Property{
+		ID: "C18",
+		Decides: []string{
+			"(C-filewrite) no code in the module creates, truncates, renames or removes a file except through atomic.WriteFile (and os.Create of the --cpuprofile path);",
+			"(D-atomic, caller side) at each of the three atomic.WriteFile sites the data is a local bytes.Buffer, and the replacement is dominated by the success edges of every call that fills the buffer and of every call that reads the same path (the parse);",
+			"(D-atomic, library side) in natefinch/atomic v1.0.1 (analysed from the module cache, all three GOOS in the thorough tier) new bytes go to a temp file created in the target's directory, and the target is named mutably only as the destination of ReplaceFile, which is dominated by successful io.Copy, Sync and Close;",
+			"(D-each-file) format applies the per-file function to every argument through iter.Map and combines all errors.",
+		},
+		NotDecided: []string{
+			"atomicity of rename(2)/MoveFileEx itself and durability of the directory entry (trusted OS contract);",
+			"that a failing write leaves no temp file behind.",
+		},
+		Rules: []Rule{RuleCFileWrite, RuleDAtomic, RuleDEachFile},
+	})
+}
+
+func init() {
+	claim(&Property{
+		ID: "C08",
+		Decides: []string{
+			"(F-gap) text between directives is copied byte for byte: data from File.Text reaches the output only as []byte(text[lo:hi]) into Write, with bounds 0 / Directive.End and Directive.Start, and the tail is written before every success return;",
+			"(F-fields) every content field of every directive type is read by the syntax printer's function for that type;",
+			"(F-presence) an annotation is printed exactly when its range is not empty;",
+			"(F-keywords) the keywords the printer writes for a directive type are keywords after which the parser builds that type;",
+			"(F-directive-types) parser, model and syntax printer agree on the set of directive types;",
+			"(D-atomic, C-filewrite) a file that does not parse or render is not written.",
+		},
+		NotDecided: []string{
+			"idempotence and equality of the re-parsed tree (no execution); column alignment arithmetic; that fields are printed in the order they are parsed.",
+		},
+		Rules: []Rule{RuleFGap, RuleFFields, RuleFPresence, RuleFKeywords, RuleFDirectiveTypes, RuleDAtomic, RuleCFileWrite},
+	})
+	claim(&Property{
+		ID: "C09",
+		Decides: []string{
+			"(F-keywords, F-fields) the journal printer writes, for every model directive type, keywords the parser reads back as that type, and reads every content field (Src and Posting.Value are listed as non-content);",
+			"(F-multiline) a directive whose printed form spans lines ends with a line break, so that an empty line separates it from the next directive (the parser's continuation loops stop at an empty line);",
+			"(C-round) amounts reach the printed text through decimal.String only: no rounding, scaling or float conversion in the journal printer;",
+			"(A-sort, A-order) the normal-form order is total for what is printed (transaction.Compare reads every printed field; days sorted by date);",
+			"(F-directive-types) ParseDirective, Builder.Add and the journal printer agree on the directive types;",
+			"(D-check-first) print runs the checker before printing.",
+		},
+		NotDecided: []string{
+			"the round trip itself (no execution): that the printed text re-parses to the same model, e.g. escaping inside descriptions (see C13 for quotes), posting sign normalisation, date format strings.",
+		},
+		Rules: []Rule{RuleFKeywords, RuleFFields, RuleFMultiline, RuleCRound, RuleAOrder, RuleFDirectiveTypes, RuleDCheckFirst},
+	})
+	claim(&Property{
+		ID: "C17",
+		Decides: []string{
+			"(F-cells) every type implementing table.cell has a case in TextRenderer.renderCell, TextRenderer.minLengthCell and CSVRenderer.renderCell, and number cells are measured and rendered through the same numToString;",
+			"(C-round) the text renderer scales by the write-once constant 1000 only under Thousands and rounds with decimal.StringFixed(Round) (half away from zero); the CSV renderer calls only decimal.String.",
+		},
+		NotDecided: []string{
+			"digit grouping, padding arithmetic, rune counting, sign and blank-zero rules, equal line width (arithmetic on runtime strings);",
+			"percent cells (portfolio weights; outside this property).",
+		},
+		Rules: []Rule{RuleFCells, RuleCRound},
+	})
+}
